@@ -509,6 +509,12 @@ impl Engine for CliSim {
                 }
                 let mut set = ancestors_of(&repo_before, &roots);
                 set.remove(repo_before.store().root_commit_id());
+                // a tag may name a commit that is already hidden (a commit id
+                // given on the command line resolves even when the commit was
+                // rewritten by the command's own snapshot): only commits visible
+                // before the command can be hidden by it
+                let vis_before = visible(&repo_before);
+                set.retain(|c| vis_before.contains(c));
                 set
             } else {
                 HashSet::new()
